@@ -287,15 +287,19 @@ def run_keep(repo, ns, case):
             fn = getattr(sock, case["call"])
             accepted = inspect.signature(fn).parameters
             kw = dict(number=n)
-            if case["post"] and "post_routine" in accepted:
+            if case.get("defaults"):
+                kw = {}      # call with default arguments only: the documented defaults must apply
+            elif case["post"] and "post_routine" in accepted:
                 kw["post_routine"] = lambda _c, q, _pair: q.measure()
-            if case["seq"] and "sequential" in accepted:
+            if case["seq"] and "sequential" in accepted and not case.get("defaults"):
                 kw["sequential"] = True
-            if case.get("minfid") and "min_fidelity_all_at_end" in accepted:
+            if case.get("minfid") and "min_fidelity_all_at_end" in accepted and not case.get("defaults"):
                 kw["min_fidelity_all_at_end"] = 80
                 if "max_tries" in accepted:
                     kw["max_tries"] = 2
-            if "expect_phi_plus" in accepted:
+            if case.get("defaults"):
+                pass
+            elif "expect_phi_plus" in accepted:
                 kw["expect_phi_plus"] = case["expect"]
             elif not case["expect"]:
                 raise RuntimeError(f"{case['call']} does not take expect_phi_plus")
@@ -482,6 +486,29 @@ def variant_cases(ctx, found, bvals, quick):
     return cases
 
 
+def default_argument_cases(ctx, found, public, bvals):
+    """every discovered variant, and every other public keep-type call, with DEFAULT arguments only (nothing is said
+    about the expectation, the number, a post routine ...).  The documented default behaviour is required, taken from
+    the docstrings (ec.DOCUMENTED_DEFAULTS), not from the signature under test: one pair, no post routine, and for a
+    receiver the pair ends in Phi+ (corrections are applied unless switched off); a creator corrects nothing."""
+    cases = []
+    names = [(n, k) for n, k, _ in found if k in ("keep", "rsp")]
+    for extra in ("recv", "create", "create_keep", "create_keep_with_info"):
+        if extra in public:
+            names.append((extra, "keep"))
+    for name, kind in names:
+        for hw, maxq, live in (("generic", None, (0, [])), ("generic", None, (3, [1])), ("nv", 2, (0, [])), ("generic", 1, (0, []))):
+            if kind == "rsp" and (hw != "generic" or maxq):
+                continue
+            for b in bvals:
+                c = dict(cfg="defaults:" + name, hardware=hw, call=name, post=False, seq=False, live=[live[0], list(live[1])],
+                         n=1, bells=[b], expect=True, kind=kind, defaults=True)
+                if maxq:
+                    c["maxq"] = maxq
+                cases.append(c)
+    return cases
+
+
 def measure_statistics_through_api(ctx, ns):
     """Part (d) as an application sees it: the creator calls create_measure(basis_local=B, basis_remote=B), the
     receiver calls recv_measure(...) on ITS socket (stating the bases if - and only as far as - the public API lets
@@ -548,6 +575,34 @@ def measure_statistics_through_api(ctx, ns):
     return nrun
 
 
+def measure_default_runs(ctx, ns, found):
+    """the measure-directly variants called with default arguments: the documented default (expectation on, Z basis)"""
+    qc = ns.qc
+    nrun = 0
+    for name, kind, params in found:
+        if kind != "measure":
+            continue
+        for b in qc.BellState:
+            for m in (0, 1):
+                case = dict(call=name, kw={}, node=1, sock=0, own_node=0)
+                d = dict(type=qc.ReturnType.OK_M.value, create_id=7, measurement_outcome=m, measurement_basis=qc.Basis.Z.value,
+                         directionality_flag=1, sequence_number=0, purpose_id=0, remote_node_id=1, goodness=5,
+                         bell_state=b.value)
+                case["resp"] = [[d[f] for f in qc.LinkLayerOKTypeM._fields]]
+                res = ec.run_case(ctx.repo, ns, case)
+                nrun += 1
+                ctx.note_case(("defaults:" + name, b.name, m), nontrivial=b != qc.BellState.PHI_PLUS)
+                want = m ^ 1 if b.name in ("PSI_PLUS", "PSI_MINUS") else m
+                got = None if (res.error or not res.handles or not res.handles["meas"]) else res.handles["meas"][0]
+                if got is None or got["measurement_outcome"] != want or got["post_process"] is not True:
+                    ctx.violation("measure-directly receive called with default arguments does not behave as documented "
+                                  "(expectation on: the outcome looks like a Phi+ outcome)",
+                                  dict(variant=name, call=name + "()", bell_state=b.name, raw_outcome=m, expected=want,
+                                       observed=None if got is None else [got["measurement_outcome"], got["post_process"]],
+                                       error=res.error), key=None)
+    return nrun
+
+
 def measure_variant_runs(ctx, ns, found, quick):
     """measure-directly variants taking expect_phi_plus: with the expectation off the handle returns the
     raw outcome; with it on (default Z basis on both sides) the outcome is flipped exactly for the states in which
@@ -607,6 +662,8 @@ def run(ctx):
     import codec_impl as ci
     import epr_tables
 
+    import logging
+    logging.disable(logging.WARNING)   # the deprecated create()/recv() wrappers warn on every call
     t0 = time.time()
     ctx.rule = ("real recv_keep/recv_rsp/create_keep through the in-process pipeline with the state-vector executor and "
                 "scripted K responses: n = 1..4 x Bell-state tuples (quick: all tuples for n <= 2, sampled for n = 3/4; "
@@ -746,8 +803,14 @@ def run(ctx):
     ctx.coverage["expect_phi_plus_variants"] = [f[0] for f in found]
     ctx.coverage["public_epr_socket_methods"] = public
     cases += variant_cases(ctx, found, bvals, quick)
+    cases += default_argument_cases(ctx, found, public, bvals)
+    methods, diffs = ec.signature_defaults_report()
+    ctx.gen_obligation("every public create*/recv* method of EPRSocket has the documented default for every parameter "
+                       "(frozen table, compared with inspect.signature)", not diffs and bool(methods), "; ".join(diffs))
+    ctx.coverage["signature_defaults_checked"] = methods
     nmeas = measure_variant_runs(ctx, ns, found, quick)
     nmeas += measure_statistics_through_api(ctx, ns)
+    nmeas += measure_default_runs(ctx, ns, found)
     dist["api:measure-directly runs"] = nmeas
     for k, case in enumerate(cases):
         case.setdefault("seed", k)
